@@ -14,6 +14,9 @@ pub mod c09;
 pub mod c10;
 pub mod c11;
 pub mod c12;
+#[cfg(feature = "utf16")]
+pub mod c14;
+pub mod c15;
 pub mod c16;
 pub mod c17;
 pub mod c18;
@@ -32,6 +35,9 @@ pub fn run(cfg: &Cfg, rep: &mut Report) -> Result<(), String> {
         "c08" => c08::run(cfg, rep),
         "c07" => c07::run(cfg, rep),
         "c05" => c05::run(cfg, rep),
+        #[cfg(feature = "utf16")]
+        "c14" => c14::run(cfg, rep),
+        "c15" => c15::run(cfg, rep),
         "c16" => c16::run(cfg, rep),
         "c17" => c17::run(cfg, rep),
         "c18" => c18::run(cfg, rep),
